@@ -4,6 +4,7 @@ package main
 
 import (
 	"bytes"
+	"encoding/json"
 	"context"
 	"errors"
 	"fmt"
@@ -39,9 +40,20 @@ func init() { register("C31", c31) }
 
 const (
 	c31KillTimeout = 100 * time.Millisecond
-	c31Margin      = 2 * time.Second // scheduling noise of a loaded machine; a stuck program never returns
-	c31HardLimit   = 5 * time.Second // watchdog: give up, leak the goroutine, record a failure
+	// Timing policy.  "Promptly" is judged in two steps so that a loaded machine cannot raise an
+	// alarm: the first pass (several runs in parallel) only sorts runs into prompt / late / not
+	// returned; anything but prompt is re-examined ALONE, up to three times, with a generous bound.
+	// A genuinely non-cancellable program never returns, so generous bounds lose nothing; a run
+	// that merely returned late under load is not a violation unless it is late alone every time.
+	c31Margin     = 2 * time.Second  // first-pass margin on top of the kill timeout
+	c31FirstLimit = 8 * time.Second  // first-pass watchdog
+	c31AloneLimit = 30 * time.Second // watchdog of a run re-examined alone
+	c31KnownLimit = 5 * time.Second  // watchdog for the open known findings replayed from the corpus
 )
+
+// c31AloneMargin is the lateness margin for runs re-examined alone: at least c31Margin, scaled up
+// by the calibration (how long a trivial cancelled loop takes to return right now), at most 10 s.
+var c31AloneMargin = c31Margin
 
 // ---- skeleton programs ------------------------------------------------------------------------
 
@@ -189,7 +201,7 @@ type c31SkResult struct {
 }
 
 // c31RunSk runs the skeleton program on the real Runner; the k-th atom cancels the context.
-func c31RunSk(src string, k int, bits string, hist string) c31SkResult {
+func c31RunSk(src string, k int, bits string, hist string, limit time.Duration) c31SkResult {
 	var res c31SkResult
 	f, err := syntax.NewParser().Parse(strings.NewReader(src), "")
 	if err != nil {
@@ -247,7 +259,7 @@ func c31RunSk(src string, k int, bits string, hist string) c31SkResult {
 			res.panicked = rerr.Error()
 		}
 		res.cancelled = errors.Is(rerr, context.Canceled)
-	case <-time.After(c31HardLimit):
+	case <-time.After(limit):
 		mu.Lock()
 		res.timedOut = didCancel // only a failure when the cancellation had been delivered
 		res.neverCancelled = !didCancel
@@ -284,7 +296,11 @@ func c31SkCase(c *Ctx, r *Rand) {
 		b = "-"
 	}
 	hist := r.Pick(c31Hists)
-	res := c31RunSk(src, k, bits.String(), hist)
+	res := c31RunSk(src, k, bits.String(), hist, c31FirstLimit)
+	if res.timedOut {
+		// re-examined with the generous bound before judging (runs are sequential here)
+		res = c31RunSk(src, k, bits.String(), hist, c31AloneLimit)
+	}
 	op := fmt.Sprintf("run %d 4000 %s %s", k, b, strings.Join(toks, " "))
 	hs := hist
 	if hs == "" {
@@ -293,7 +309,7 @@ func c31SkCase(c *Ctx, r *Rand) {
 	witness := fmt.Sprintf("sk hist=%s k=%d bits=%s src=%s", hs, k, b, hx(src))
 	if res.timedOut {
 		// after the k-th atom cancelled the context the program must end
-		c.Fail(witness, fmt.Sprintf("skeleton program still running %v after the context was cancelled inside atom %d", c31HardLimit, k))
+		c.Fail(witness, fmt.Sprintf("skeleton program still running %v after the context was cancelled inside atom %d", c31AloneLimit, k))
 		c.Case(witness, true, "leg=sk", "sk-timeout")
 		return
 	}
@@ -412,9 +428,10 @@ type c31TimedResult struct {
 	panicked string
 	parseErr bool
 	finished bool // returned before the cancellation was due
+	limit    time.Duration // the watchdog that expired, when !returned
 }
 
-func c31RunTimed(c *Ctx, t c31Timed) c31TimedResult {
+func c31RunTimed(c *Ctx, t c31Timed, limit time.Duration) c31TimedResult {
 	var res c31TimedResult
 	f, err := syntax.NewParser().Parse(strings.NewReader(t.src), "")
 	if err != nil {
@@ -448,8 +465,10 @@ func c31RunTimed(c *Ctx, t c31Timed) c31TimedResult {
 	var rerr error
 	var pan string
 	var retAt time.Time
+	var endedUncancelled bool
 	go func() {
 		pan = safely(func() { rerr = r.Run(ctx, f) })
+		endedUncancelled = ctx.Err() == nil // Run came back before the cancellation was delivered
 		retAt = time.Now()
 		close(done)
 	}()
@@ -465,6 +484,9 @@ func c31RunTimed(c *Ctx, t c31Timed) c31TimedResult {
 	case <-done:
 		res.returned = true
 		res.err, res.panicked = rerr, pan
+		if endedUncancelled {
+			res.finished = true
+		}
 		if !res.finished {
 			res.late = retAt.Sub(cancelAt)
 		}
@@ -472,31 +494,99 @@ func c31RunTimed(c *Ctx, t c31Timed) c31TimedResult {
 			pw.Close()
 		}
 		os.RemoveAll(dir)
-	case <-time.After(c31HardLimit):
+	case <-time.After(limit):
 		// give up: the goroutine (and its pipe/FIFO) is leaked on purpose
 		c31Leaked.Add(1)
+		res.limit = limit
 	}
 	return res
 }
 
-// c31TimedVerdict: "" when the property holds on this run.
-func c31TimedVerdict(t c31Timed, res c31TimedResult) string {
+// c31Classify sorts one run: "" prompt and fine, "never" (watchdog expired), "late", "nilerr".
+func c31Classify(t c31Timed, res c31TimedResult, margin time.Duration) (kind, what string) {
 	if res.parseErr || res.finished {
-		return ""
+		return "", ""
 	}
 	if !res.returned {
-		return fmt.Sprintf("Run did not return within %v after the context was cancelled (kill timeout %v)", c31HardLimit, c31KillTimeout)
+		return "never", fmt.Sprintf("Run did not return within %v after the context was cancelled (kill timeout %v)", res.limit, c31KillTimeout)
 	}
 	if res.panicked != "" {
-		return "" // C28's business
+		return "", "" // C28's business
 	}
-	if res.late > c31KillTimeout+c31Margin {
-		return fmt.Sprintf("Run returned %v after the cancellation (limit: kill timeout %v + margin %v)", res.late.Round(time.Millisecond), c31KillTimeout, c31Margin)
+	if res.late > c31KillTimeout+margin {
+		return "late", fmt.Sprintf("Run returned %v after the cancellation (limit: kill timeout %v + margin %v)", res.late.Round(time.Millisecond), c31KillTimeout, margin)
 	}
 	if t.needErr && res.err == nil {
-		return "Run returned a nil error although the context was cancelled while the program was running"
+		return "nilerr", "Run returned a nil error although the context was cancelled while the program was running"
 	}
-	return ""
+	return "", ""
+}
+
+// c31Judge turns a first-pass result into a verdict.  Everything suspicious is re-examined alone
+// (the caller runs c31Judge sequentially, after the parallel first pass): a violation is reported
+// only when the run alone never returns within c31AloneLimit, or is late / error-less alone three
+// times in a row.
+func c31Judge(c *Ctx, t c31Timed, first c31TimedResult) (what string, tags []string) {
+	kind, what := c31Classify(t, first, c31Margin)
+	if kind == "" {
+		return "", nil
+	}
+	tags = append(tags, "timed-reexamined", "first="+kind)
+	for try := 0; try < 3; try++ {
+		res := c31RunTimed(c, t, c31AloneLimit)
+		k2, w2 := c31Classify(t, res, c31AloneMargin)
+		switch k2 {
+		case "":
+			return "", append(tags, "timed-reexamined-passed")
+		case "never":
+			// alone, with a generous bound: the program is not cancellable
+			return w2 + " (re-examined alone)", append(tags, "timed-never-alone")
+		}
+		what = w2 + fmt.Sprintf(" (alone, attempt %d of 3)", try+1)
+	}
+	return what, append(tags, "timed-reproducible-alone")
+}
+
+// c31Calibrate measures how long a trivial cancelled loop takes to return right now and scales the
+// margin used for re-examined runs.
+func c31Calibrate(c *Ctx) time.Duration {
+	worst := time.Duration(0)
+	for i := 0; i < 3; i++ {
+		res := c31RunTimed(c, c31Timed{delayMs: 20, stdin: "nil", src: "while :; do :; done\n"}, c31AloneLimit)
+		if res.returned && res.late > worst {
+			worst = res.late
+		}
+	}
+	m := 40 * worst
+	if m < c31Margin {
+		m = c31Margin
+	}
+	if m > 10*time.Second {
+		m = 10 * time.Second
+	}
+	c31AloneMargin = m
+	return worst
+}
+
+// c31OpenKnown reads the witnesses of the open known findings of C31: they are expected to fail,
+// so they are replayed once with a short watchdog and not re-examined.
+func c31OpenKnown() map[string]bool {
+	out := map[string]bool{}
+	root := os.Getenv("VERIF_ROOT")
+	if root == "" {
+		root = "/verif"
+	}
+	b, err := os.ReadFile(root + "/known-findings.jsonl")
+	if err != nil {
+		return out
+	}
+	for _, l := range strings.Split(string(b), "\n") {
+		var k struct{ Property, Status, Witness string }
+		if json.Unmarshal([]byte(l), &k) == nil && k.Property == "C31" && k.Status == "open" {
+			out[k.Witness] = true
+		}
+	}
+	return out
 }
 
 var c31Blockers = []struct {
@@ -511,7 +601,7 @@ var c31Blockers = []struct {
 	// long word lists: since 7ead8d8 the word-list `for` consults stop() at the top of every iteration
 	{"for i in {1..16000} {1..16000} {1..16000}; do :; done; while :; do :; done", "nil", false},
 	{"for i in {1..9000}; do for j in {1..9000}; do :; done; done", "nil", false},
-	{"for i in {1..16000} {1..16000} {1..16000} {1..16000} {1..16000} {1..16000}; do x=$i; done", "nil", false},
+	{"for i in {1..16000} {1..16000} {1..16000} {1..16000} {1..16000} {1..16000}; do x=$i; done; while :; do :; done", "nil", false},
 	{"read x", "pipe", false},
 	{"read -r a b", "pipe", false},
 	{"while read l; do :; done", "pipe", false},
@@ -596,33 +686,51 @@ func (r *Rand) Pick2(s []int) int { return s[r.Intn(len(s))] }
 
 func c31(c *Ctx) {
 	c.Rule = "sk: the k-th atom was reached (the context was cancelled during the run); timed: the program was still running when the cancellation was due"
-	// corpus: `timed …` witnesses, in parallel (a known hang costs the whole watchdog time)
+	known := c31OpenKnown()
+	c.Extra["calibration_ms"] = int(c31Calibrate(c) / time.Millisecond)
+	c.Extra["alone_margin_ms"] = int(c31AloneMargin / time.Millisecond)
+	// corpus: `timed …` / `rtimed …` witnesses, first pass in parallel
 	var corpus []c31Timed
 	for _, line := range c.CorpusLines() {
 		if t, ok := c31ParseTimed(line); ok {
 			corpus = append(corpus, t)
 		}
 	}
-	results := parallelMap(len(corpus), 4, func(i int) c31TimedResult { return c31RunTimed(c, corpus[i]) })
-	for i, t := range corpus {
-		what := c31TimedVerdict(t, results[i])
-		// a lateness verdict (not a hang, not a nil error) is re-examined alone before judging
-		for try := 0; strings.HasPrefix(what, "Run returned ") && strings.Contains(what, "after the cancellation") && try < 2; try++ {
-			what = c31TimedVerdict(t, c31RunTimed(c, t))
+	results := parallelMap(len(corpus), 4, func(i int) c31TimedResult {
+		if known[corpus[i].witness()] {
+			return c31RunTimed(c, corpus[i], c31KnownLimit)
 		}
-		c.Case(t.witness(), !results[i].finished, "corpus", "leg=timed")
+		return c31RunTimed(c, corpus[i], c31FirstLimit)
+	})
+	for i, t := range corpus {
+		var what string
+		var tags []string
+		if known[t.witness()] {
+			// an open known finding: expected to fail, reported as it is (check matches the witness)
+			_, what = c31Classify(t, results[i], c31Margin)
+			tags = []string{"known-open"}
+		} else {
+			what, tags = c31Judge(c, t, results[i])
+		}
+		c.Case(t.witness(), !results[i].finished, append(tags, "corpus", "leg=timed")...)
 		if what != "" {
 			c.Fail(t.witness(), what)
 		}
 	}
-	// generated: 1 timed run per 8 skeleton runs
+	// generated: 1 timed run per 8 skeleton runs; the loop × body matrix first, then random shapes
 	nTimed := c.N / 8
 	timed := make([]c31Timed, nTimed)
 	tr := c.R.Fork("timed")
+	matrix := c31Matrix()
 	for i := range timed {
-		timed[i] = c31GenTimed(tr.Fork(strconv.Itoa(i)))
+		r := tr.Fork(strconv.Itoa(i))
+		if i%3 == 0 {
+			timed[i] = c31GenMatrix(r, matrix, i/3+c.Shard*7+int(c.Seed%97))
+		} else {
+			timed[i] = c31GenTimed(r)
+		}
 	}
-	tres := parallelMap(len(timed), 4, func(i int) c31TimedResult { return c31RunTimed(c, timed[i]) })
+	tres := parallelMap(len(timed), 4, func(i int) c31TimedResult { return c31RunTimed(c, timed[i], c31FirstLimit) })
 	for i, t := range timed {
 		res := tres[i]
 		tags := []string{"leg=timed", fmt.Sprintf("delay=%d", t.delayMs), "needErr=" + strconv.FormatBool(t.needErr), "reused=" + strconv.FormatBool(t.hist != "")}
@@ -633,23 +741,9 @@ func c31(c *Ctx) {
 			tags = append(tags, "timed-finished-early")
 		case res.returned:
 			tags = append(tags, fmt.Sprintf("late<%s", c31Bucket(res.late)))
-			if res.err == nil {
-				tags = append(tags, "timed-nil-error")
-			}
 		}
-		what := c31TimedVerdict(t, res)
-		// timing verdicts are re-examined alone (nothing else running in this process) before
-		// judging: on a loaded machine a parallel run may simply not have been scheduled
-		for try := 0; what != "" && try < 2; try++ {
-			tags = append(tags, "timed-retried")
-			if w2 := c31TimedVerdict(t, c31RunTimed(c, t)); w2 == "" {
-				what = ""
-				tags = append(tags, "timed-retry-passed")
-			} else {
-				what = w2
-			}
-		}
-		c.Case(t.witness(), !res.finished && !res.parseErr, tags...)
+		what, jt := c31Judge(c, t, res)
+		c.Case(t.witness(), !res.finished && !res.parseErr, append(tags, jt...)...)
 		if what != "" {
 			c.Fail(t.witness(), what)
 		}
@@ -658,6 +752,46 @@ func c31(c *Ctx) {
 		c31SkCase(c, c.R.Fork(fmt.Sprintf("sk%d", it)))
 	}
 	c.Extra["leaked_goroutines"] = int(c31Leaked.Load())
+}
+
+// c31Matrix: every loop kind × every body kind; either the body blocks by itself or the loop around
+// a quick body never ends.
+func c31Matrix() []string {
+	loops := []string{
+		"while true; do %s; done",
+		"until false; do %s; done",
+		"for ((;;)); do %s; done",
+		"for ((i=0;i<1000000000;i++)); do %s; done",
+		"for w in 1 2 3; do %s; done; while true; do %s; done",
+	}
+	bodies := []string{
+		":",                                   // simple
+		"{ :; true; }",                        // block
+		"( : )",                               // subshell
+		"( while true; do true; done )",       // subshell that blocks
+		"true | true",                         // pipeline
+		"while true; do true; done | true",    // pipeline that blocks
+		"v=$(true)",                           // command substitution
+		"v=$(while true; do true; done)",      // command substitution that blocks
+		"qf",                                  // function call
+		"bf",                                  // function call that blocks
+		"{ ( until false; do :; done ); }",    // block around a blocking subshell
+		"hang",                                // handler-controlled external command
+	}
+	var out []string
+	for _, l := range loops {
+		for _, b := range bodies {
+			out = append(out, "qf() { :; }; bf() { while true; do true; done; }\n"+strings.ReplaceAll(l, "%s", b))
+		}
+	}
+	return out
+}
+
+func c31GenMatrix(r *Rand, matrix []string, idx int) c31Timed {
+	t := c31Timed{stdin: "nil", hist: r.Pick(c31Hists), needErr: true}
+	t.delayMs = r.Pick2([]int{0, 5, 20, 50, 100, 200})
+	t.src = matrix[idx%len(matrix)] + "\necho after\n"
+	return t
 }
 
 func c31Bucket(d time.Duration) string {
